@@ -823,7 +823,7 @@ class Sim:
                     raise
                 except BaseException as e:  # noqa: BLE001 - results are data
                     sys.settrace(None)
-                    res = ('exc', type(e).__name__, _short(e))
+                    res = ('exc', type(e).__name__, '' if isinstance(e, RecursionError) else _short(e))
                 finally:
                     sys.settrace(None)
                 t.in_op = False
